@@ -112,15 +112,22 @@ def classes_of(chk, plan):
 
 
 def minimise(chk, plan, klass, max_runs=400, max_s=90):
+    """Greedy shrinking: take the first candidate that still fails in the same class, start over from it.
+    Candidates already tried (by content hash) are not executed again, so restarts are cheap."""
     t0 = time.time()
     runs = 0
     cur = plan
+    tried = set()
     improved = True
     while improved and runs < max_runs and time.time() - t0 < max_s:
         improved = False
         for cand in chk.shrink(cur):
             if runs >= max_runs or time.time() - t0 > max_s:
                 break
+            h = core.hash_obj(cand)
+            if h in tried:
+                continue
+            tried.add(h)
             runs += 1
             try:
                 v, _, herr = classes_of(chk, cand)
@@ -168,6 +175,7 @@ def fresh_replay(prop, path):
 
 
 def main_replay(chk, path):
+    chk.replay_mode = True
     chk.setup("quick")
     v, klass, herr = do_replay(chk, path)
     core.close_executors()
@@ -190,6 +198,7 @@ def run_check(chk, tier, seed):
     global _check
     t_start = time.time()
     prop = chk.prop
+    chk.seed = seed
     chk.setup(tier)
     _check = chk
     known = core.load_known(prop)
@@ -246,38 +255,48 @@ def run_check(chk, tier, seed):
     for r in done:
         for x in r["viol"]:
             by_class.setdefault(x["class"], []).append((r["i"], x))
+    triage_deadline = time.time() + (240 if tier == "quick" else 1200)
     for klass in sorted(by_class):
-        i, x = by_class[klass][0]
-        plan = chk.gen(seed, i, tier)
-        pf = chk.plan_features(plan)
-        k = core.match_known(known, klass, pf)
-        if k:
-            known_hit[k["id"]] = known_hit.get(k["id"], 0) + len(by_class[klass])
-            if k["id"] not in printed_known:
-                print("KNOWN-FINDING: property=%s %s [%s]" % (prop, k.get("what"), k.get("id")))
-                printed_known.add(k["id"])
-            continue
-        # gate 1: the failing plan is deterministic
-        h = []
-        for _ in range(2):
-            v2, obs2, herr2 = classes_of(chk, plan)
-            h.append((core.obs_hash(obs2), sorted(y["class"] for y in (v2 or []))))
-        orig_hash = [r for r in done if r["i"] == i][0]["ohash"]
-        if h[0] != h[1] or h[0][0] != orig_hash or klass not in h[0][1]:
-            machinery.append("non-deterministic alarm: class %s plan %d does not repeat (hashes %s vs %s)" % (klass, i, orig_hash, h))
-            continue
-        small, runs = minimise(chk, plan, klass, *( (150, 40) if tier == "quick" else (400, 120)))
-        path = replay_path(prop, seed, i, klass)
-        write_replay(path, chk, small, klass, x.get("detail", ""), {"seed": seed, "i": i, "tier": tier, "minimise_runs": runs})
-        ok = True
-        for _ in range(2):
-            ec, out = fresh_replay(prop, path)
-            if ec != 1 or ("VIOLATION property=%s" % prop) not in out:
-                ok = False
-        if not ok:
-            machinery.append("replay gate failed for class %s (file %s)" % (klass, path))
-            continue
-        violations.append((klass, x.get("detail", ""), path))
+        occ = by_class[klass]
+        # examine a few occurrences (first, and a couple spread over the batch): a class may have a known and an unknown cause
+        picks = [occ[0]] + ([occ[len(occ) // 2]] if len(occ) > 2 else []) + ([occ[-1]] if len(occ) > 1 else [])
+        any_known = all(k.get("status") != "open" or not core.match_known([k], klass, None) for k in known)
+        reported = False
+        for i, x in picks:
+            if time.time() > triage_deadline and not reported:
+                machinery.append("triage budget exhausted before class %s could be examined" % klass)
+                break
+            plan = chk.gen(seed, i, tier)
+            # gate 1: the failing plan is deterministic
+            h = []
+            for _ in range(2):
+                v2, obs2, herr2 = classes_of(chk, plan)
+                h.append((core.obs_hash(obs2), sorted(y["class"] for y in (v2 or []))))
+            orig_hash = [r for r in done if r["i"] == i][0]["ohash"]
+            if h[0] != h[1] or h[0][0] != orig_hash or klass not in h[0][1]:
+                machinery.append("non-deterministic alarm: class %s plan %d does not repeat (hashes %s vs %s)" % (klass, i, orig_hash, h))
+                break
+            small, runs = minimise(chk, plan, klass, *((600, 40) if tier == "quick" else (2000, 120)))
+            k = core.match_known(known, klass, chk.plan_features(small))
+            if k:
+                known_hit[k["id"]] = known_hit.get(k["id"], 0) + 1
+                if k["id"] not in printed_known:
+                    print("KNOWN-FINDING: property=%s %s [%s]" % (prop, k.get("what"), k.get("id")))
+                    printed_known.add(k["id"])
+                continue
+            path = replay_path(prop, seed, i, klass)
+            write_replay(path, chk, small, klass, x.get("detail", ""), {"seed": seed, "i": i, "tier": tier, "minimise_runs": runs,
+                                                                         "features": chk.plan_features(small)})
+            ok = True
+            for _ in range(2):
+                ec, out = fresh_replay(prop, path)
+                if ec != 1 or ("VIOLATION property=%s" % prop) not in out:
+                    ok = False
+            if not ok:
+                machinery.append("replay gate failed for class %s (file %s)" % (klass, path))
+                break
+            violations.append((klass, x.get("detail", ""), path))
+            break
 
     # 4. evidence
     shapes = set()
